@@ -15,7 +15,7 @@ const SPELL: u32 = Cat::ArgSpell as u32 | Cat::Quote as u32;
 
 /// 0: alone, 1: `-true -a <P> -o -false`, 2: `( <P> )`, 3: `! <P>`; members only: 4: `(<P>)`
 /// (parentheses without inner blanks: the last argument word ends where the `)` starts),
-/// 5: `<P> , -false`, 6: `-name x -depth -threads 3 <P>` (the primary after misplaced option words)
+/// 5: `<P> , -false`, 6: `-name x -depth -threads 3 <P>` (the primary after misplaced option words), 7: `-threads 9 -name x <P>`
 fn wrap_text(p: &str, wrap: u8) -> String {
     match wrap {
         0 => p.to_string(),
@@ -24,7 +24,8 @@ fn wrap_text(p: &str, wrap: u8) -> String {
         3 => format!("! {p}"),
         4 => format!("({p})"),
         5 => format!("{p} , -false"),
-        _ => format!("-name x -depth -threads 3 {p}"),
+        6 => format!("-name x -depth -threads 3 {p}"),
+        _ => format!("-threads 9 -name x {p}"),
     }
 }
 fn wrap_tree(e: E, wrap: u8) -> E {
@@ -34,7 +35,9 @@ fn wrap_tree(e: E, wrap: u8) -> E {
         3 => E::not(e),
         5 => E::list(e, E::T(Tst::False)),
         // after option words inside the expression (each of them is -true there)
-        _ => E::and(E::and(E::and(E::T(Tst::Name("x".into())), E::T(Tst::True)), E::T(Tst::True)), e),
+        6 => E::and(E::and(E::and(E::T(Tst::Name("x".into())), E::T(Tst::True)), E::T(Tst::True)), e),
+        // after a leading option and a test (the leading run leaves no node)
+        _ => E::and(E::T(Tst::Name("x".into())), e),
     }
 }
 
@@ -73,7 +76,12 @@ pub fn judge_member(leaf: &E, choices: &[u16], wrap: u8) -> Verdict {
         E::G(_) => return Verdict::Skip("-maxdepth/-mindepth are decided by C13"),
         other => (false, None, wrap_tree(other.clone(), wrap)),
     };
-    let (exp_depth, exp_threads) = if wrap == 6 { (true, exp_threads.or(Some(3))) } else { (exp_depth, exp_threads) };
+    let (exp_depth, exp_threads) = match wrap {
+        6 => (true, exp_threads.or(Some(3))),
+        // the last occurrence wins: a -threads written later overrides the leading one
+        7 => (exp_depth, exp_threads.or(Some(9))),
+        _ => (exp_depth, exp_threads),
+    };
     match parse_tree(&text) {
         Err(p) => Verdict::Fail(format!("parse panicked on member {text:?}: {p}")),
         Ok(Err(e)) => Verdict::Fail(format!("{text:?} is '{kw}' with an argument of its language (expected {exp_tree:?}) but was rejected: {e}")),
@@ -449,7 +457,7 @@ pub fn run(ctx: &Ctx) -> Report {
         if let Some(w) = render::primary_words(leaf, &mut render::Canon) {
             kws.insert(w[0].text.clone());
         }
-        for wrap in 0..7u8 {
+        for wrap in 0..8u8 {
             for choices in [vec![], vec![40000u16], vec![0, 40000], vec![25000, 25000, 25000], vec![60000, 60000, 60000, 60000]] {
                 let v = judge_member(leaf, &choices, wrap);
                 st.record(&v, stable_hash(&(leaf, &choices, wrap)), true, || member_json(leaf, &choices, wrap));
@@ -575,7 +583,7 @@ pub fn run(ctx: &Ctx) -> Report {
         let mut st = Stats::new();
         poison_parses(40);
         let leaf = prop_oneof![20 => gen::text_leaf(), 1 => Just(E::G(Glob::Depth)), 1 => gen::count_u32().prop_map(|n| E::G(Glob::Threads(n)))];
-        let strat = (leaf.clone(), gen::choice_stream(8), 0u8..7);
+        let strat = (leaf.clone(), gen::choice_stream(8), 0u8..8);
         run_prop(&mut st, ctx.seed, "C05-member", shard as u64, cases / shards as u32, &strat, |(l, c, w)| judge_member(l, c, *w), |(l, c, w)| member_json(l, c, *w));
         let strat = (leaf, 0usize..1000, 0u8..4, 0usize..8).prop_filter_map("no corruption applies", |(l, k, w, pickc)| {
             let cs = corruptions(&l, k, w);
